@@ -42,6 +42,12 @@ uint64_t y_table_n;
 /* std::array::fill, loop-free (N <= 16): an un-contracted loop in a callee breaks dfcc's loop-contract mode */
 #define Y_FILL1(p, N, v, i) if ((i) < (N)) (p)->a[(i)] = (v);
 #define Y_FILL(p, N, v) { Y_FILL1(p,N,v,0) Y_FILL1(p,N,v,1) Y_FILL1(p,N,v,2) Y_FILL1(p,N,v,3) Y_FILL1(p,N,v,4) Y_FILL1(p,N,v,5) Y_FILL1(p,N,v,6) Y_FILL1(p,N,v,7) Y_FILL1(p,N,v,8) Y_FILL1(p,N,v,9) Y_FILL1(p,N,v,10) Y_FILL1(p,N,v,11) Y_FILL1(p,N,v,12) Y_FILL1(p,N,v,13) Y_FILL1(p,N,v,14) Y_FILL1(p,N,v,15) __CPROVER_assert((N) <= 16, "Y_FILL model bound"); }
+/* statement repetition (loop-free specification functions); two copies so that one can be nested in the other */
+#define Y_REP8(F) F(0) F(1) F(2) F(3) F(4) F(5) F(6) F(7)
+#define Y_REP14(F) F(0) F(1) F(2) F(3) F(4) F(5) F(6) F(7) F(8) F(9) F(10) F(11) F(12) F(13)
+#define Y_REP15(F) F(0) F(1) F(2) F(3) F(4) F(5) F(6) F(7) F(8) F(9) F(10) F(11) F(12) F(13) F(14)
+#define Y_REP15B(F) F(0) F(1) F(2) F(3) F(4) F(5) F(6) F(7) F(8) F(9) F(10) F(11) F(12) F(13) F(14)
+#define Y_REP16(F) F(0) F(1) F(2) F(3) F(4) F(5) F(6) F(7) F(8) F(9) F(10) F(11) F(12) F(13) F(14) F(15)
 #define Y_MIN(T, a, b) ((T)(b) < (T)(a) ? (T)(b) : (T)(a))
 #define Y_BITSET_SET(p, i) (*(p) = (uint16_t)(*(p) | (uint16_t)(1u << (i))))
 #define Y_BITSET_TEST(p, i) (((*(p)) >> (i)) & 1u)
